@@ -250,18 +250,23 @@ def gen_cfg(rng, dirs, files, incl_pool):
     return cfg
 
 
-def channelise(rng, cfg):
-    """split the configuration between command line and config file"""
+def channelise(rng, cfg, decoy=None):
+    """split the configuration between command line and config file; sometimes the command line
+    carries a different value for an option the file sets as well (the file's value is the
+    configured one: docs/options.rst, 'the configuration file has precedence')"""
     argv = []
     filecfg = {}
     for k in ("source_dirs", "excl_paths", "incl_suffixes", "excl_suffixes"):
         v = cfg.get(k)
         if v is None:
             continue
-        if rng.random() < 0.5:
+        r = rng.random()
+        if r < 0.45:
             argv += ["--" + k] + list(v)
         else:
             filecfg[k] = list(v)
+            if r > 0.8 and decoy and decoy.get(k) and decoy[k] != v:
+                argv += ["--" + k] + list(decoy[k])
     return argv, filecfg
 
 
@@ -270,7 +275,7 @@ def gen_sched(g):
     incl_pool = [".inc", "inc", ".FYP", ".h", ".fypp"]
     dirs, files, links = gen_tree(rng, incl_pool)
     cfg = gen_cfg(rng, dirs, files, incl_pool)
-    argv, filecfg = channelise(rng, cfg)
+    argv, filecfg = channelise(rng, cfg, gen_cfg(rng, dirs, files, incl_pool))
     tree = dict(files)
     for lp, target in links.items():
         tree[lp] = {"symlink": target}
